@@ -19,6 +19,21 @@ pub fn check(bc: &BuildCase, obs: &mut Obs) -> Result<(), Fail> {
     };
     let n = built.size();
     let vals = built.values();
+    // what happened on this thread just before (one case in four each): a rendering of ANOTHER, larger symbol; a
+    // rendering attempt on a hand-made QRCode value of an impossible size (that call panics and is caught, as a thread
+    // pool would). The rendering under test is a function of its own matrix only.
+    match bc.hash() % 4 {
+        2 => {
+            let _ = catch(|| fast_qr::QRCode::default(if n % 8 == 1 { 178 } else { 200 }).to_str());
+            obs.label("after_failed_rendering_on_this_thread");
+        }
+        3 => {
+            let _ = catch(|| crate::fq::recycled_copy(&built.qr).to_str().len());
+            let _ = catch(|| fast_qr::QRBuilder::new("PREDECESSOR").version(crate::fq::f_version(1 + (n + 7) % 40)).build().map(|q| q.to_str().len()));
+            obs.label("after_other_rendering_on_this_thread");
+        }
+        _ => {}
+    }
     let text = catch(|| built.qr.to_str()).map_err(|p| Fail { sig: panic_sig(&p), msg: format!("to_str panicked: {} ({:?})", p, bc) })?;
     check_text(&text, &vals, n, bc)?;
     if bc.hash() % 4 == 1 {
